@@ -1716,10 +1716,9 @@ impl Rem<Vec3A> for Vec3A {
     type Output = Self;
     #[inline]
     fn rem(self, rhs: Self) -> Self {
-        unsafe {
-            let n = vrndmq_f32(vdivq_f32(self.0, rhs.0));
-            Self(vsubq_f32(self.0, vmulq_f32(n, rhs.0)))
-        }
+        // NEON has no remainder instruction; use the scalar `%` on each lane so the result
+        // has the sign of the dividend and is exact, like the scalar and core-simd backends.
+        Self::new(self.x.rem(rhs.x), self.y.rem(rhs.y), self.z.rem(rhs.z))
     }
 }
 
